@@ -19,7 +19,14 @@ pub struct Job {
 }
 
 pub fn gen_job(t: &mut Tape) -> Job {
-    match t.weighted(&[4, 2, 4, 4]) {
+    // v2: programs that mix functions, conditional arms, asm blocks, sub-rules, banks, assertions (no model needed
+    // by the metamorphic checks that draw jobs from here)
+    let w: [u32; 5] = if crate::engine::gen_version() >= 2 { [4, 2, 4, 4, 4] } else { [4, 2, 4, 4, 0] };
+    match t.weighted(&w) {
+        4 => {
+            let src = crate::props::c03::feature_mix_program(t);
+            Job { origin: "feature-mix".into(), files: vec![("main.asm".into(), src.into_bytes())], root: "main.asm".into(), generated: true }
+        }
         3 => {
             let (prog, _) = crate::props::c02::gen_cascade(t, 22);
             let (src, _) = render(&prog);
@@ -255,6 +262,7 @@ impl Property for C08 {
         let has_instr = job.files.iter().any(|f| f.0 == job.root && String::from_utf8_lossy(&f.1).contains("#ruledef"));
         ctx.nontrivial = any_ok && has_instr;
         ctx.label(if any_ok { "assembles" } else { "fails-everywhere" });
+        ctx.label(format!("origin:{}:{}", job.origin.split(':').next().unwrap_or(""), if any_ok { "assembles" } else { "fails" }));
         ctx.render(|| job_json(&job));
         Verdict::Pass
     }
